@@ -1420,11 +1420,14 @@ func (d *DFA) determinize(cache *DFACache, current *State, b byte) (*State, erro
 	// This eliminates the expensive Builder + resolveWordBoundaries call in the hot loop.
 	if d.hasWordBoundary && !isMatch {
 		// Check: would resolving \b (word boundary satisfied) produce a match?
+		// (only a match that the assertion ADDS counts: a plain Match already among the
+		// states is reported by the delayed-match path, see checkWordBoundaryMatch)
+		plainMatch := builder.containsMatchState(nextNFAStates)
 		wbStates := builder.resolveWordBoundaries(nextNFAStates, true)
-		newState.matchAtWordBoundary = builder.containsMatchState(wbStates)
+		newState.matchAtWordBoundary = !plainMatch && builder.containsMatchState(wbStates)
 		// Check: would resolving \B (word boundary NOT satisfied) produce a match?
 		nwbStates := builder.resolveWordBoundaries(nextNFAStates, false)
-		newState.matchAtNonWordBoundary = builder.containsMatchState(nwbStates)
+		newState.matchAtNonWordBoundary = !plainMatch && builder.containsMatchState(nwbStates)
 	}
 
 	// Insert into cache
@@ -1581,9 +1584,15 @@ func (d *DFA) checkWordBoundaryMatch(state *State, nextByte byte) bool {
 	// This only expands states if word boundary assertions are actually crossed
 	resolved := builder.resolveWordBoundaries(state.NFAStates(), wordBoundarySatisfied)
 
-	// Check if resolving word boundaries added any match states
-	// If resolved == original states (no word boundaries crossed), this returns false
-	// because the original states weren't matches (checked above)
+	// Only a match that the word boundary ADDS ends the search here. IsMatch() above is
+	// the delayed tag (the PREVIOUS state had a match); the current NFA states may contain
+	// a plain Match of their own, reached without any assertion - that one is reported by
+	// the normal one-byte-delayed path, which keeps scanning for the leftmost-first end.
+	// Without this test `\bERROR: .*` on "ERROR: bcd" stopped at 7: every state after the
+	// literal contains Match, so the shortcut fired on the first byte after it.
+	if builder.containsMatchState(state.NFAStates()) {
+		return false
+	}
 	return builder.containsMatchState(resolved)
 }
 
